@@ -490,6 +490,11 @@ def run(ctx):
         names = sorted(SCEN)
         idx = 0
         done = True
+        # The enumerated families (P1, P2, P6, P5, P4-targeted) are bounded and are what the check is FOR: every single
+        # pre-emption point.  They always run to their end, whatever the wall budget says (a budget-cut P1 missed a seeded
+        # change whose window is one source line); the shares below then only order the families.  The hard watchdog of
+        # the runner stays.  The sampled family and the thorough tier's exhaustive two-pre-emption family obey the budget.
+        enumerations_may_stop = False
         calib = {}
         for name in names:
             calib[name] = calibrate(name)
@@ -506,7 +511,7 @@ def run(ctx):
                     idx += 1
                     if not ctx.mine(idx):
                         continue
-                    if ((idx // ctx.nshards) & 0x3) == 0 and ctx.expired():      # counted per shard: idx itself is filtered by mine()
+                    if enumerations_may_stop and ((idx // ctx.nshards) & 0x3) == 0 and ctx.expired():
                         done = False
                         break
                     case = dict(family='P1', scenario=name, pX=pX, pY=pY, plan=[['EDIT'], ['X', k], ['Y', None], ['X', None]])
@@ -519,7 +524,7 @@ def run(ctx):
                     idx += 1
                     if not ctx.mine(idx):
                         continue
-                    if ((idx // ctx.nshards) & 0x3) == 0 and ctx.expired():      # counted per shard: idx itself is filtered by mine()
+                    if enumerations_may_stop and ((idx // ctx.nshards) & 0x3) == 0 and ctx.expired():
                         done = False
                         break
                     case = dict(family='P2', scenario=name, pX=pX, pY=pY, plan=[['Y', k], ['EDIT'], ['X', None], ['Y', None]])
@@ -546,7 +551,7 @@ def run(ctx):
                         idx += 1
                         if not ctx.mine(idx):
                             continue
-                        if ((idx // ctx.nshards) & 0x3) == 0 and ctx.expired():      # counted per shard: idx itself is filtered by mine()
+                        if enumerations_may_stop and ((idx // ctx.nshards) & 0x3) == 0 and ctx.expired():
                             done6 = False
                             break
                         case = dict(family='P6', scenario=name, pX=sc['probes'][0], pY=pY, preload=False,
@@ -575,7 +580,7 @@ def run(ctx):
                             idx += 1
                             if not ctx.mine(idx):
                                 continue
-                            if ((idx // ctx.nshards) & 0x3) == 0 and ctx.expired():      # counted per shard: idx itself is filtered by mine()
+                            if enumerations_may_stop and ((idx // ctx.nshards) & 0x3) == 0 and ctx.expired():
                                 done5 = False
                                 break
                             case = dict(family='P5', scenario=name, pX=sc['probes'][0], pY=pY,
@@ -607,7 +612,7 @@ def run(ctx):
                         idx += 1
                         if not ctx.mine(idx):
                             continue
-                        if ((idx // ctx.nshards) & 0x3) == 0 and ctx.expired():      # counted per shard: idx itself is filtered by mine()
+                        if enumerations_may_stop and ((idx // ctx.nshards) & 0x3) == 0 and ctx.expired():
                             done4 = False
                             break
                         check_plan(ctx, dict(family='P4', scenario=name, pX=pX, pY=pY,
